@@ -434,7 +434,9 @@ def unit_accessors(sess, ctx):
         if op == 2:
             sr, sw, ch = Int("sr"), Int("sw"), Int("ch")
             eng.assume(And(sr >= 1, ch >= 1))
-            stdin_buf = eng.st.new_obj("FileStream:stdin", {})
+            # sys.stdin.buffer is a BufferedReader: read(n) blocks until n bytes (or EOF); its `.raw` is the unbuffered
+            # FileIO underneath, whose read(n) returns whatever a pipe holds -- a different object with a different contract
+            stdin_buf = eng.st.new_obj("FileStream:stdin", {"raw": eng.st.new_obj("FileStream:stdin-raw-unbuffered", {})})
             eng.modattrs["sys.stdin"] = eng.st.new_obj("SysStdin", {"buffer": stdin_buf})
             me = eng.st.new_obj("StdinAudioSource", {})
             okw = Or(sw == 1, sw == 2, sw == 4)
